@@ -231,16 +231,21 @@ func (p *RedisProtocol) Read() (packet *RedisPacket, err error) {
 					}
 				}
 				if len(array) > 3 {
-					packet.Value = fmt.Sprintf("[%s", packet.Value)
+					var value strings.Builder
+					value.WriteString("[")
+					value.WriteString(packet.Value)
 					for _, item := range array[3:] {
 						switch j := item.(type) {
 						case []uint8:
-							packet.Value = fmt.Sprintf("%s, %s", packet.Value, j)
+							value.WriteString(", ")
+							value.Write(j)
 						case int64:
-							packet.Value = fmt.Sprintf("%s, %d", packet.Value, j)
+							value.WriteString(", ")
+							value.WriteString(strconv.FormatInt(j, 10))
 						}
 					}
-					packet.Value = fmt.Sprintf("%s]", packet.Value)
+					value.WriteString("]")
+					packet.Value = value.String()
 				}
 			default:
 				msg := fmt.Sprintf("Unrecognized element in Redis array: %v", reflect.TypeOf(array[0]))
